@@ -4,6 +4,8 @@
 import N2V.Model.World
 import N2V.Lemmas.Work
 import N2V.Lemmas.SchedRun
+import N2V.Lemmas.WorkDisc
+import N2V.Lemmas.LoadInv
 namespace N2V.C09
 open N2V N2V.Work N2V.Load
 
@@ -80,5 +82,122 @@ theorem no_ordering (g : GraphM) (b : Nat) (bm : BuildM) (hb : g.builds[b]? = so
     ((schedGraph g).build b).ordering = bm.ins.take (bm.explicit + bm.implicit + bm.orderOnly) := by
   unfold schedGraph
   simp [hb]
+
+/-! ### Across invocations: any log, any number of earlier runs -/
+
+/-- **Remembered in all later invocations.**  For EVERY tree and log (whatever earlier
+    invocations, manifests and crashes produced it): after start-up, the discovered-dependency list
+    of a step is, name by name and in order, the dependency list of the LATEST record the log
+    attributes to the step, and the signature it will be compared with is that record's.  Start-up
+    changes neither the tree nor the steps of the manifest (it only interns source files). -/
+theorem remembered_by_every_later_invocation (w : World) (m : Bytes) (l : Loader) (e : Env)
+    (h : loadEnv w m = .ok (l, e)) (b : Nat) (r : Rec) (hr : lastRec l.graph b w.log none = some r) :
+    (discOf e b).map (fileName e.g) = r.deps ∧ assocGet e.hashes b = some r.hash ∧
+    e.fs = w.fs ∧ e.g.builds = l.graph.builds := by
+  unfold loadEnv at h
+  simp only [] at h
+  split at h
+  · cases h
+  · rename_i l0 _
+    cases h
+    obtain ⟨hx, hfs, _, _, _, hb⟩ := applyLog_spec w.log
+      { g := l.graph, disc := [], hashes := [], cache := [], fs := w.fs, clock := w.clock, log := w.log }
+    obtain ⟨h1, _, h3⟩ := (hb b).1 r hr
+    exact ⟨h1, h3, hfs, hx.builds⟩
+
+/-- A step no record is attributed to starts with no remembered dependencies and no signature
+    (so it is dirty): nothing is ever remembered from another step's record. -/
+theorem nothing_remembered_without_record (w : World) (m : Bytes) (l : Loader) (e : Env)
+    (h : loadEnv w m = .ok (l, e)) (b : Nat) (hr : lastRec l.graph b w.log none = none) :
+    discOf e b = [] ∧ assocGet e.hashes b = none := by
+  unfold loadEnv at h
+  simp only [] at h
+  split at h
+  · cases h
+  · cases h
+    obtain ⟨_, _, _, _, _, hb⟩ := applyLog_spec w.log
+      { g := l.graph, disc := [], hashes := [], cache := [], fs := w.fs, clock := w.clock, log := w.log }
+    obtain ⟨h1, h2⟩ := (hb b).2 hr
+    exact ⟨by rw [h1]; rfl, by rw [h2]; rfl⟩
+
+/-- **…until that step next succeeds, when the new report replaces the old list entirely.**
+    Whatever the log held before, once a record for the step's outputs is appended (that is what a
+    success does: `recordFinished_record`) it is the one that counts, until a later record is
+    attributed to the step — nothing of the older lists survives (`Remembers` is an equality). -/
+theorem latest_success_wins (g : GraphM) (inv : GInv g) (b : Nat) (bm : BuildM) (hb : buildOf g b = some bm)
+    (hne : bm.outs ≠ []) (before after : List Rec) (rec : Rec) (hrec : rec.outs = bm.outs.map (fileName g))
+    (hafter : ∀ r ∈ after, Db.attributeRec (producerByName g) r.outs ≠ some b) :
+    lastRec g b (before ++ [rec] ++ after) none = some rec := by
+  rw [lastRec_append, lastRec_none_attributed g b after _ hafter, lastRec_append]
+  have : Db.attributeRec (producerByName g) rec.outs = some b := by
+    rw [hrec]; exact attributed_own g inv b bm hb hne
+  simp [lastRec, this]
+
+/-- What a success writes: the outputs by name and the kept report by name (so the next
+    start-up's list is exactly this report, `replaced_wholesale`), with a signature that stamps
+    exactly those names. -/
+theorem success_writes_its_report (e : Env) (b : Nat) (bm : BuildM) (hb : buildOf e.g b = some bm)
+    (deps : Option (List Bytes)) :
+    (recordFinished e b deps).log = e.log ∨
+    ∃ rec, (recordFinished e b deps).log = e.log ++ [rec] ∧
+      rec.outs = bm.outs.map (fileName (recordFinished e b deps).g) ∧
+      rec.deps = (discOf (recordFinished e b deps) b).map (fileName (recordFinished e b deps).g) ∧
+      rec.hash.disc.map (·.1) = rec.deps :=
+  recordFinished_record e b bm hb deps
+
+/-- **A remembered dependency is a dirtying input.**  At any point of any invocation whose cached
+    stat() answers are truthful: if the step remembers record `r` and the `i`-th remembered name
+    is missing now, or its modification time differs from the one stamped in `r`'s signature, the
+    step is not found clean (it is dirty or, for a generated file without a path to it, an error). -/
+theorem changed_dependency_is_dirty (e : Env) (hc : Coh e) (b : Nat) (bm : BuildM) (hb : buildOf e.g b = some bm)
+    (hnp : bm.cmdline.isNone = false) (r : Rec) (hrem : Remembers e b r)
+    (i : Nat) (n : Bytes) (t : Nat) (hn : r.deps[i]? = some n) (hs : r.hash.disc[i]? = some (n, t))
+    (hchg : (e.fs.get n).map (·.mtime) ≠ some t) : (checkDirty e b).1 ≠ some false := by
+  intro h
+  obtain ⟨hp, hd⟩ := clean_means_deps_unchanged e hc b bm hb hnp r hrem h
+  rw [hd, List.getElem?_map, hn] at hs
+  simp only [Option.map_some, Option.some.injEq, Prod.mk.injEq, true_and] at hs
+  have hpn := hp n (List.mem_of_getElem? hn)
+  cases hx : e.fs.get n with
+  | none => rw [hx] at hpn; cases hpn
+  | some info =>
+    rw [hx] at hs hchg
+    simp only [Option.map_some, Option.getD_some] at hs hchg
+    exact hchg (by rw [hs])
+
+/-- **…but never an error**: once the declared inputs are in place, remembered dependencies that
+    are source files (or were stat()ed already) cannot make the check fail — whatever became of
+    them, the answer is "dirty" or "clean". -/
+theorem remembered_sources_never_fail (e : Env) (bm : BuildM) (b : Nat) (e1 : Env)
+    (h1 : ensureInputs e bm.dirtying = .ok (none, e1))
+    (hsrc : ∀ f ∈ discOf e b, fileInput e.g f = none ∨ Cached e f) : (filesMissing e bm b).2 ≠ none := by
+  obtain ⟨s1, m1, _⟩ := ensureInputs_stat _ _ _ _ h1
+  have hsrc1 : ∀ f ∈ discOf e1 b, fileInput e1.g f = none ∨ Cached e1 f := by
+    intro f hf
+    have hd : discOf e1 b = discOf e b := by unfold discOf; rw [s1.toSameButCache.disc]
+    rw [hd] at hf
+    rcases hsrc f hf with h | h
+    · left; rw [s1.toSameButCache.g]; exact h
+    · right; exact m1 f h
+  obtain ⟨r, e2, h2⟩ := ensureInputs_no_error _ e1 hsrc1
+  unfold filesMissing
+  rw [h1]
+  simp only []
+  rw [h2]
+  cases r <;> simp
+
+/-- Non-vacuity: a two-record log for `build out: cc in` — the later record's list (`h2`) is what
+    start-up attaches, the earlier one (`h1`) is gone. -/
+def exG : GraphM :=
+  { files := [⟨[111], some 0, []⟩, ⟨[105], none, [0]⟩],
+    builds := [{ loc := ⟨[], 1⟩, desc := none, cmdline := some [99], depfile := some [100], showIncludes := false, rspfile := none,
+                 pool := none, ins := [1], explicit := 1, implicit := 0, orderOnly := 0, outs := [0], explicitOuts := 1,
+                 hideSuccess := false, hideProgress := false }] }
+def exHash (t : Nat) (d : Bytes) : Manifest := { ins := [([105], 1)], disc := [(d, t)], cmd := [99], rsp := none, outs := [([111], 2)] }
+def exLog : List Rec := [⟨[[111]], [[104, 49]], exHash 1 [104, 49]⟩, ⟨[[111]], [[104, 50]], exHash 1 [104, 50]⟩]
+def exE0 : Env := { g := exG, disc := [], hashes := [], cache := [], fs := [], clock := 0, log := exLog }
+
+example : lastRec exG 0 exLog none = some ⟨[[111]], [[104, 50]], exHash 1 [104, 50]⟩ := by decide
+example : (discOf (applyLog exE0 exLog) 0).map (fileName (applyLog exE0 exLog).g) = [[104, 50]] := by decide
 
 end N2V.C09
